@@ -29,7 +29,13 @@ def build_values(nondets, model):
     return vals
 
 
-def replay(pkg_rel, harness, consts, values, repeat=1, timeout=120, mem_gb=8, keep_dir=None):
+def replay_race(pkg_rel, consts, values, timeout=300, keep_dir=None):
+    """C15: concurrent Layout calls on the cube under the race detector; reproduced if the detector (or the runtime's
+    concurrent-map check) fires"""
+    return replay(pkg_rel, None, consts, values, timeout=timeout, keep_dir=keep_dir, race=True)
+
+
+def replay(pkg_rel, harness, consts, values, repeat=1, timeout=120, mem_gb=8, keep_dir=None, race=False):
     """returns dict(outcome=clean|failed|panic|assume-violated|timeout|build-error|crash, failed=[...], known=[...],
     panic=str, raw=str)"""
     hsub = "_root" if pkg_rel == "." else pkg_rel
@@ -45,7 +51,10 @@ def replay(pkg_rel, harness, consts, values, repeat=1, timeout=120, mem_gb=8, ke
         p = os.path.join(work, "vh_native.go")
         open(p, "w").write(nat)
         overlay[os.path.join(REPO, pkg_rel, "zz_verif_vh.go")] = p
-        tst = open(os.path.join(VERIF, "harness", "vh_replay_test.go.tmpl")).read().replace("PKGNAME", pname).replace("HARNESS", harness)
+        if race:
+            tst = open(os.path.join(VERIF, "harness", "vh_race_test.go.tmpl")).read().replace("PKGNAME", pname)
+        else:
+            tst = open(os.path.join(VERIF, "harness", "vh_replay_test.go.tmpl")).read().replace("PKGNAME", pname).replace("HARNESS", harness)
         p = os.path.join(work, "vh_replay_test.go")
         open(p, "w").write(tst)
         overlay[os.path.join(REPO, pkg_rel, "zz_verif_replay_test.go")] = p
@@ -54,14 +63,24 @@ def replay(pkg_rel, harness, consts, values, repeat=1, timeout=120, mem_gb=8, ke
         rp = os.path.join(work, "replay.json")
         json.dump({"values": values, "consts": consts}, open(rp, "w"))
         env = dict(GOENV, VH_REPLAY=rp, VH_REPEAT=str(repeat))
-        cmd = ["bash", "-c", "ulimit -v %d; exec go test -v -vet=off -count=1 -overlay %s -run '^TestVerifReplay$' -timeout %ds ./%s" % (
-            mem_gb * 1024 * 1024, ov, timeout, pkg_rel)]
+        if race:
+            cmd = ["bash", "-c", "exec go test -race -v -vet=off -count=1 -overlay %s -run '^TestVerifRace$' -timeout %ds ./%s" % (ov, timeout, pkg_rel)]
+        else:
+            cmd = ["bash", "-c", "ulimit -v %d; exec go test -v -vet=off -count=1 -overlay %s -run '^TestVerifReplay$' -timeout %ds ./%s" % (
+                mem_gb * 1024 * 1024, ov, timeout, pkg_rel)]
         try:
             r = subprocess.run(cmd, cwd=REPO, env=env, capture_output=True, text=True, timeout=timeout + 60)
             raw = r.stdout + r.stderr
         except subprocess.TimeoutExpired as e:
             return dict(outcome="timeout", failed=[], known=[], panic="", raw=str(e))
         res = dict(outcome="crash", failed=[], known=[], panic="", raw=raw[-6000:])
+        if race:
+            res["outcome"] = "race" if ("DATA RACE" in raw or "concurrent map" in raw) else ("clean" if "VH-RACE done" in raw else "crash")
+            if keep_dir:
+                os.makedirs(keep_dir, exist_ok=True)
+                shutil.copy(rp, os.path.join(keep_dir, "replay.json"))
+                open(os.path.join(keep_dir, "native_output.txt"), "w").write(raw[-20000:])
+            return res
         m = re.search(r"VH-RESULT run=(\d+) (.*)", raw)
         if m:
             rest = m.group(2)
